@@ -280,6 +280,9 @@ def check_case(case, res):
         try:
             P.post(con)
             accepted.append(con)
+            if case.get('solve_between') and con is not case['same'][-1]:
+                # the manager is solved after every posting (an incremental use): the final answer is the one for ALL postings
+                P.sm.solve()
         except ArgumentMutated as e:
             res.violation('argument-mutated', case, dict(attrs, kind=con[0]), 'the caller\'s list is left as it was', str(e))
             accepted.append(con)
@@ -482,6 +485,7 @@ def run_shard(shard, tier, res):
         a = alpha[shard['i']]
         for b in alpha:
             check_case(dict(pre=[], same=[a, b]), res)         # both in the probed manager
+            check_case(dict(pre=[], same=[a, b], solve_between=True), res)     # ... with a solve() after the first
             check_case(dict(pre=[a], same=[b]), res)           # a encoded earlier in another manager
             check_case(dict(pre=[a, b], same=[b, a]), res)     # both earlier, then both again in the other order
         res.samples.append(dict(pre=[a], same=[alpha[(shard['i'] + 7) % len(alpha)]]))
